@@ -91,6 +91,10 @@ func (s *sessions) update(h Header, n Handler) {
 func (s *sessions) delete(session SessionID) {
 	s.Lock()
 	defer s.Unlock()
+	if _, ok := s.known[session]; !ok {
+		// never registered, or already deleted: there is nothing to account for
+		return
+	}
 	sessionsActive.Dec()
 	if sc := s.known[session]; sc != nil {
 		sc.timer.ObserveDuration()
@@ -102,6 +106,8 @@ func (s *sessions) delete(session SessionID) {
 func (s *sessions) close() {
 	for _, r := range s.known {
 		r.timer.ObserveDuration()
+		// sessions still waiting for a continuation end with their connection
+		sessionsActive.Dec()
 	}
 }
 
